@@ -405,7 +405,10 @@ Section S.
   Proof.
     intros G. destruct t; cbn [bstep].
     - destruct (str_eqb _ _); [exact G|exact I].
-    - eapply Os_bind; [apply Os_any|]. intros [tid t1] _.
+    - destruct (reserved_target (ss_text target)).
+      { match goal with |- Os _ (match ?x with Some _ => _ | None => _ end) => destruct x as [v|] end; [|exact I].
+        destruct (str_eqb _ _); [exact G|exact I]. }
+      eapply Os_bind; [apply Os_any|]. intros [tid t1] _.
       assert (SInv n0 (with_tabs st t1)) as G1 by exact G.
       eapply Os_bind; [apply (add_node_sound n0 (with_tabs st t1) _ G1); [reflexivity|reflexivity|discriminate]|].
       intros [st1 n] [H1 H2]. cbn. exact H1.
@@ -460,10 +463,17 @@ Section S.
       eapply Permutation_trans; [|exact Hp]. apply perm_skip. apply ids_frev.
   Qed.
 
-  Theorem parse_document_sound t next srclen ts p : parse_document bi t next srclen ts = BOk p -> tree_sound next p.
+  Lemma SInv_new_at d t next : SInv next (with_dstart (builder_new bi t next) d).
   Proof.
-    unfold parse_document. pose proof (brun_sound next ts _ (SInv_new t next)) as H.
-    destruct (brun bi (builder_new bi t next) ts) as [st| | |]; cbn [bbind]; try discriminate. cbn in H.
+    split; [reflexivity|]. split; [|split; [|exact I]].
+    - constructor; [|constructor]. unfold entry_sound, K. cbn. repeat split.
+    - exists 1%nat. cbn. split; [|lia]. rewrite N.add_0_r. reflexivity.
+  Qed.
+
+  Theorem parse_document_at_sound bom t next srclen ts p : parse_document_at bi bom t next srclen ts = BOk p -> tree_sound next p.
+  Proof.
+    unfold parse_document_at. pose proof (brun_sound next ts _ (SInv_new_at (Some (if bom then 3 else 0)) t next)) as H.
+    destruct (brun bi (with_dstart (builder_new bi t next) (Some (if bom then 3 else 0))) ts) as [st| | |]; cbn [bbind]; try discriminate. cbn in H.
     destruct (b_stack st) as [|doc [|x rest]] eqn:E.
     - unfold unclosed. rewrite E. discriminate.
     - destruct (top_level_check st (frev (on_kids doc)) []) as [els| | |]; cbn [bbind]; try discriminate.
@@ -472,6 +482,9 @@ Section S.
       + destruct (span_get _ _); discriminate.
     - unfold unclosed. rewrite E. destruct (span_get _ _); discriminate.
   Qed.
+
+  Theorem parse_document_sound t next srclen ts p : parse_document bi t next srclen ts = BOk p -> tree_sound next p.
+  Proof. apply parse_document_at_sound. Qed.
 
   Theorem parse_fragment_sound t next ts p : parse_fragment bi t next ts = BOk p -> tree_sound next p.
   Proof.
